@@ -31,6 +31,8 @@ add('C02', 'break', G + 'integrator.py', '    mx = state.mass_mx + jp.diag(sys.d
 add('C02', 'break', G + 'integrator.py', "  q = scan.link_types(sys, q_fn, 'lqd', 'q', sys.link, state.q, qd)", "  q = scan.link_types(sys, q_fn, 'lqd', 'q', sys.link, state.q, state.qd)", 'explicit instead of semi-implicit')
 add('C02', 'break', G + 'mass.py', '  mx = mx + jp.diag(sys.dof.armature)', '  mx = mx', 'armature dropped')
 add('C02', 'break', G + 'integrator.py', '  rot = math.quat_mul(rot, qrot)', '  rot = math.quat_mul(qrot, rot)', 'world-frame instead of body-frame angular velocity')
+add('C02', 'break', G + 'pipeline.py', '  tau = actuator.to_tau(sys, act, state.q, state.qd)', '  tau = actuator.to_tau(sys, act, state.q, state.qd * 0)', 'actuator force from a zero velocity')
+add('C02', 'break', 'brax/actuator.py', '  force *= sys.actuator.gear\n', '', 'gear not applied to the force')
 add('C02', 'benign', G + 'dynamics.py', '  qfrc = qfrc_passive - qfrc_bias + tau', '  qfrc = tau + qfrc_passive - qfrc_bias', 'reordered sum')
 # ---------------------------------------------------------------- C03
 add('C03', 'break', G + 'integrator.py', 'math.safe_norm(ang) + 1e-8', 'jp.linalg.norm(ang) + 1e-8', 'D3 reverted')
